@@ -31,6 +31,9 @@ type CaseC07 struct {
 	Later *ref.PAT `json:"later_pat,omitempty"`
 	// Pointer is the pointer_field in front of the section (that many 0xFF filler bytes follow it)
 	Pointer int `json:"pointer,omitempty"`
+	// Rd selects the reader the stream is read from: 0 bytes.Reader, 1.. a bufio.Reader (sizes 16, 188, 256, 4096) that the
+	// caller goes on reading after ReadPAT has returned (the table is compared again afterwards)
+	Rd int `json:"reader,omitempty"`
 }
 
 // c07Payload is pointer_field ++ filler ++ section.
@@ -124,6 +127,9 @@ func genC07(t *rapid.T) CaseC07 {
 	c.Trailing = rapid.SampledFrom([]int{0, 0, 1, 5, 60}).Draw(t, "trailing")
 	c.Before = rapid.IntRange(0, 5).Draw(t, "before")
 	c.After = rapid.IntRange(0, 2).Draw(t, "after")
+	if rapid.IntRange(0, 2).Draw(t, "buffered-reader") == 0 {
+		c.Rd = rapid.IntRange(1, 4).Draw(t, "buffered-reader-size")
+	}
 	c.Other = genOtherPacket(t, 0)
 	for i := 0; i < 4; i++ {
 		c.Probe = append(c.Probe, int(genBits(t, 13, "probe")))
@@ -262,13 +268,22 @@ func checkC07(c CaseC07, x *hx.Ctx) *hx.Failure {
 			stream = append(stream, lb[:]...)
 			stream = append(stream, c.Other...)
 		}
-		r := bytes.NewReader(stream)
+		r := streamReader(c.Rd, stream, c.Other)
 		pat, err := psi.ReadPAT(r)
 		if err != nil {
 			return hx.Failf("readpat-error", "%s after %d other packets: ReadPAT failed: %v", what, c.Before, err)
 		}
 		if f := c07Compare(what+" (ReadPAT)", pat, m, c.Probe); f != nil {
 			return f
+		}
+		if c.Rd != 0 {
+			// the caller reads on from the same reader: the table it holds is its own
+			x.Label("buffered-reader-read-on")
+			readOn(r)
+			if f := c07Compare(what+" (ReadPAT, after the caller read the rest of the stream from the same bufio.Reader)", pat, m, c.Probe); f != nil {
+				f.Key = "retained-" + f.Key
+				return f
+			}
 		}
 		// a stream without a PID-0 packet, possibly ending in a truncated packet (even a truncated PAT packet)
 		noPAT = append(noPAT, pb[:c.CutTail]...)
@@ -292,7 +307,7 @@ func checkC07(c CaseC07, x *hx.Ctx) *hx.Failure {
 var propC07 = hx.Register(hx.Prop[CaseC07]{ID: "C07", Gen: genC07, Check: checkC07})
 
 func c07Rule() {
-	hx.Rec("C07").SetRule("cases: a reference-model PAT with 0..253 entries (payload carrier) or 0..42 (packet and stream carriers), distinct program numbers, with probability 1/4 a network entry (program 0) at a drawn position, PIDs biased to > 255 and 0x1FFF, arbitrary transport_stream_id/version, pointer_field 0 (three cases in four) or up to what the carrier allows; carried as payload bytes (optional trailing stuffing), as a 188-byte packet (payload-side padding or adaptation-field stuffing), or in a stream after 0..5 packets of other PIDs and before 0..2 more, optionally followed by a second, different PID-0 packet (table update or another section_number; section_number/last_section_number/current_next drawn freely). Oracle: the model (entry count, exact program map, single-program accessor, IsPMT for map values/neighbours/drawn PIDs, nil PAT, not-found on streams without a PID-0 packet incl. a truncated last packet). Enumerated: every entry count 0..253 (payload) and 0..42 (packet, packet-af, stream) with and without a network entry. Non-trivial: entry count not in {1,2}, or a network entry, or a PID > 255, or a non-zero stream offset.",
+	hx.Rec("C07").SetRule("cases: a reference-model PAT with 0..253 entries (payload carrier) or 0..42 (packet and stream carriers), distinct program numbers, with probability 1/4 a network entry (program 0) at a drawn position, PIDs biased to > 255 and 0x1FFF, arbitrary transport_stream_id/version, pointer_field 0 (three cases in four) or up to what the carrier allows; carried as payload bytes (optional trailing stuffing), as a 188-byte packet (payload-side padding or adaptation-field stuffing), or in a stream after 0..5 packets of other PIDs (random payloads, or a complete PAT section on a PID other than 0) and before 0..2 more, one stream in three read through a bufio.Reader (16..4096 bytes) that the caller reads on from afterwards (the table is compared again), optionally followed by a second, different PID-0 packet (table update or another section_number; section_number/last_section_number/current_next drawn freely). Oracle: the model (entry count, exact program map, single-program accessor, IsPMT for map values/neighbours/drawn PIDs, nil PAT, not-found on streams without a PID-0 packet incl. a truncated last packet). Enumerated: every entry count 0..253 (payload) and 0..42 (packet, packet-af, stream) with and without a network entry. Non-trivial: entry count not in {1,2}, or a network entry, or a PID > 255, or a non-zero stream offset.",
 		"distinct program numbers")
 }
 
